@@ -320,18 +320,20 @@ func hasMaxErr(err error) bool {
 func Harness_C16(n int) {
 	in := symInput(n, true)
 	budget := symU64("budget")
+	// small budgets (every one forks the parse) or huge ones (never exhausted)
 	symAssume(budget >= 1)
-	symAssume(budget <= %d)
+	symAssume(symOr(budget <= %d, budget >= 1<<31))
 	memo := symBool("memoize")
 	var st Stats
 	o := runReal(in, MaxExpressions(budget), Memoize(memo), Statistics(&st, "no match"))
 	symNote(outcomeNote(o))
 	symAssert(!o.panicked, "C16: the budget panic escaped Parse")
 	hit := hasMaxErr(o.err)
-	symAssert(st.ExprCnt <= budget+1, "C16: more expressions were evaluated than the budget allows")
+	// (written without budget+1, which wraps for the largest budgets)
+	symAssert(symOr(st.ExprCnt == 0, st.ExprCnt-1 <= budget), "C16: more expressions were evaluated than the budget allows")
 	if hit {
 		symAssert(o.v == nil, "C16: value returned although the budget was exhausted")
-		symAssert(st.ExprCnt == budget+1, "C16: budget error reported before the budget was exhausted")
+		symAssert(st.ExprCnt-1 == budget, "C16: budget error reported before the budget was exhausted")
 	}
 	if %s {
 		// terminating grammar: an unexhausted budget gives the unbounded result
